@@ -32,6 +32,8 @@ var (
 	genPath   = flag.String("gen", "", "write Gen/Re_<fmt>.lean and Gen/Regexes.lean into this directory and exit")
 	casesPath = flag.String("cases", "", "evaluate the `fmt hex` lines of this file instead of generating")
 	repoPath  = flag.String("repo", "", "library working tree (default $VERIF_REPO or /repo)")
+	optOrder  = flag.String("optorder", "fwd", "order in which the variants of an option family are used: fwd|rev")
+	onlyOpt   = flag.Bool("onlyopt", false, "run only the option families (second process, other order)")
 )
 
 func main() {
@@ -167,6 +169,9 @@ func runC20(c hx.Config) error {
 		nRandom = 150
 	}
 	for _, f := range formats {
+		if f.family != "" || *onlyOpt {
+			continue
+		}
 		l := lives[f.name]
 		g := gens[f.name]
 		if g == nil {
@@ -213,7 +218,86 @@ func runC20(c hx.Config) error {
 			put(m2.s, m.how+"+"+m2.how)
 		}
 	}
+	// Option families: the variants of one constructor share library code (regex builders, caches),
+	// so they are used interleaved in this one process: every string of the family's pool goes to every
+	// variant in turn (the first variant is therefore used again after each of the others), in the
+	// order given by -optorder; vlib runs a second process with the reverse order.
+	for _, fam := range []string{"dto", "tmo"} {
+		var vs []*live
+		for _, f := range formats {
+			if f.family == fam {
+				vs = append(vs, lives[f.name])
+			}
+		}
+		if *optOrder == "rev" {
+			for i, j := 0, len(vs)-1; i < j; i, j = i+1, j-1 {
+				vs[i], vs[j] = vs[j], vs[i]
+			}
+		}
+		limit := 5000
+		if c.Thorough() {
+			limit = 40000
+		}
+		for _, s := range familyPool(fam, rng, limit) {
+			for _, l := range vs {
+				emit(l, s, "family:"+*optOrder)
+			}
+		}
+	}
 	return o.Close(map[string]any{"stdlib_recognisers": indep})
+}
+
+// familyPool: strings valid for some variant of the family, and their single-edit neighbours
+// in the part the options govern (time of day and zone).
+func familyPool(fam string, rng *hx.Rng, limit int) []string {
+	var seeds []string
+	times := []string{"06:15", "06:15:00", "23:59:59", "06:15:00.1", "06:15:00.12", "06:15:00.123", "06:15:00.1234", "06:15:00.123456789", "06:15:00.1234567890", "00:00:00.000"}
+	keep := 0
+	if fam == "tmo" {
+		seeds = append(seeds, times...)
+		seeds = append(seeds, "06:15Z", "06:15:00Z", "06:15:00+02:00", "24:00", "06:60", "06:15:60", "6:15", "06:15:00.", "06:15.5", "06:15:00,5", "")
+	} else {
+		dates := []string{"2020-01-01", "2024-02-29"}
+		for _, d := range dates {
+			for _, t := range times {
+				for _, z := range []string{"Z", "", "+02:00", "-00:00"} {
+					seeds = append(seeds, d+"T"+t+z)
+				}
+			}
+		}
+		seeds = append(seeds, "2023-02-29T06:15:00Z", "2020-01-01T06:15:00z", "2020-01-01t06:15:00Z", "2020-01-01 06:15:00Z", "2020-01-01T06:15:00+24:00",
+			"2020-01-01T06:15:00+02", "2020-01-01T06:15:00+0200", "2020-01-01T06:15:00,5Z", "2020-01-01T06:15:00.Z", "2020-01-01", "")
+		keep = 10
+	}
+	seen := map[string]bool{}
+	var pool, rest []string
+	for _, s := range seeds {
+		if !seen[s] {
+			seen[s] = true
+			pool = append(pool, s)
+		}
+	}
+	for _, s := range seeds {
+		head, tail := "", s
+		if len(s) >= keep {
+			head, tail = s[:keep], s[keep:]
+		}
+		for _, m := range neighbours(tail, "059:.TZ+-,", ":.") {
+			t := head + m.s
+			if !seen[t] {
+				seen[t] = true
+				rest = append(rest, t)
+			}
+		}
+	}
+	// deterministic sample of the neighbours up to the limit
+	for len(pool) < limit && len(rest) > 0 {
+		i := rng.Intn(len(rest))
+		pool = append(pool, rest[i])
+		rest[i] = rest[len(rest)-1]
+		rest = rest[:len(rest)-1]
+	}
+	return pool
 }
 
 type mutant struct{ s, how string }
